@@ -75,3 +75,90 @@ func verif_inv_DNSSearchList_unmarshal_1(i int, raw *RawOption) bool {
 	return raw != nil && 6 <= i && i <= len(raw.Value)
 }
 func verif_dec_DNSSearchList_unmarshal_1(i int, raw *RawOption) int { return len(raw.Value) - i }
+
+// ---------- Session.Parse (C01, C02, C16, C19) ----------
+
+// spec_session_wf: what NewSession establishes and the packet path relies on.
+func spec_session_wf(h *Session) bool {
+	return h != nil && h.NICInfo != nil && len(h.Statistics) == 32
+}
+
+// Host-table callees of Parse. Their contracts are proved separately (C05);
+// here only what Parse needs: non-nil results, the session stays well formed,
+// the caller's packet bytes are not written.
+func verif_contract_Session_findOrCreateHostWithLock(h *Session, addr Addr) (*Host, bool) {
+	vRequires(spec_session_wf(h))
+	vModifiesHeap()
+	host, found := h.findOrCreateHostWithLock(addr)
+	vEnsures(host != nil && host.MACEntry != nil)
+	vEnsures(spec_session_wf(h))
+	return host, found
+}
+
+func verif_contract_Session_onlineTransition(h *Session, host *Host) {
+	vRequires(spec_session_wf(h) && host != nil && host.MACEntry != nil)
+	vModifiesHeap()
+	h.onlineTransition(host)
+	vEnsures(spec_session_wf(h))
+}
+
+func verif_contract_echoNotify(id uint16) {
+	vModifiesMems("packet.icmpEntry/", "packet.icmpTable", "map[uint16]*")
+	echoNotify(id)
+}
+
+func spec_off_ok(off int, n int) bool { return off == 0 || (14 <= off && off <= n) }
+
+// spec_frame_wf: the offsets recorded in a Frame lie inside the packet and the
+// views they denote are valid.
+func spec_frame_wf(f Frame, p []byte) bool {
+	return len(f.ether) == len(p) && (len(p) == 0 || (vSameRegion(f.ether, p) && vOffset(f.ether, p) == 0)) &&
+		spec_off_ok(f.offsetIP4, len(p)) && spec_off_ok(f.offsetIP6, len(p)) &&
+		spec_off_ok(f.offsetUDP, len(p)) && spec_off_ok(f.offsetTCP, len(p)) && spec_off_ok(f.offsetPayload, len(p)) &&
+		(f.offsetIP4 == 0 || spec_valid_ip4(IP4(p[f.offsetIP4:]))) &&
+		(f.offsetIP6 == 0 || len(p)-f.offsetIP6 >= 40) &&
+		(f.offsetUDP == 0 || len(p)-f.offsetUDP >= 8) &&
+		(f.offsetTCP == 0 || len(p)-f.offsetTCP >= 20)
+}
+
+//verif:props C01 C16
+func verif_contract_Session_Parse(h *Session, p []byte) (Frame, error) {
+	vRequires(spec_session_wf(h))
+	vStrictLen()
+	vModifiesHeap()
+	frame, err := h.Parse(p)
+	if err == nil {
+		vEnsures(len(p) >= 14)
+		vEnsures(spec_frame_wf(frame, p))
+		vEnsures(len(frame.SrcAddr.MAC) == 6 && vSameRegion(frame.SrcAddr.MAC, p) && vOffset(frame.SrcAddr.MAC, p) == 6)
+		vEnsures(len(frame.DstAddr.MAC) == 6 && vSameRegion(frame.DstAddr.MAC, p) && vOffset(frame.DstAddr.MAC, p) == 0)
+	}
+	vEnsures(spec_session_wf(h))
+	return frame, err
+}
+
+//verif:props C01 C16
+func verif_lemma_frame_accessors(h *Session, p []byte) {
+	vRequires(spec_session_wf(h))
+	f, err := h.Parse(p)
+	if err != nil {
+		return
+	}
+	vCanary()
+	vAssert(len(f.Ether()) == len(p) && spec_inside(f.Ether(), p))
+	_ = f.HasIP()
+	ip4 := f.IP4()
+	vAssert(spec_inside(ip4, p) && (ip4 == nil || (vOffset(ip4, p) == f.offsetIP4 && vOffset(ip4, p)+len(ip4) == len(p))))
+	vAssert(ip4 == nil || ip4.IsValid() == nil)
+	ip6 := f.IP6()
+	vAssert(spec_inside(ip6, p) && (ip6 == nil || (vOffset(ip6, p) == f.offsetIP6 && vOffset(ip6, p)+len(ip6) == len(p))))
+	udp := f.UDP()
+	vAssert(spec_inside(udp, p) && (udp == nil || (vOffset(udp, p) == f.offsetUDP && vOffset(udp, p)+len(udp) == len(p))))
+	vAssert(udp == nil || udp.IsValid() == nil)
+	tcp := f.TCP()
+	vAssert(spec_inside(tcp, p) && (tcp == nil || (vOffset(tcp, p) == f.offsetTCP && vOffset(tcp, p)+len(tcp) == len(p))))
+	vAssert(tcp == nil || tcp.IsValid() == nil)
+	pl := f.Payload()
+	vAssert(spec_inside(pl, p) && (pl == nil || vOffset(pl, p) == f.offsetPayload))
+	vAssert(spec_inside(f.SrcAddr.MAC, p) && spec_inside(f.DstAddr.MAC, p))
+}
